@@ -388,16 +388,12 @@ static void check_fields(const struct aws_date_time *dt, int64_t t, unsigned ms,
                           origin, (long long)t, (unsigned long long)nanos);
         }
     } else if (nanos != UINT64_MAX) {
-        /* sub-second instant after 2554-07-21: outside the property's quantifier (second-resolution instants);
-         * recorded as a note, not an alarm: saturated seconds part + millisecond part wraps around */
-        static bool noted;
+        /* sub-second instant after 2554-07-21: the saturated seconds part plus the millisecond part used to wrap
+         * around (repaired in /repo by "fix: aws_date_time_as_nanos wrapped around ..."); the only value consistent
+         * with the documented saturation is UINT64_MAX */
         ++s_k[K_NANOS_WRAP_SUBSECOND];
-        if (!noted && mon_run.slice == 0) { /* one note per stage is enough; every occurrence is counted */
-            noted = true;
-            mon_note("outside C19's quantifier: aws_date_time_as_nanos for t=%lld s + %u ms returns %llu (saturated seconds part "
-                     "UINT64_MAX plus the millisecond part wraps around)",
-                     (long long)t, ms, (unsigned long long)nanos);
-        }
+        mon_violation("C19:epoch-views:nanos-wrap-subsecond", "%s, t=%lld s + %u ms: as_nanos = %llu, expected saturation at UINT64_MAX",
+                      origin, (long long)t, ms, (unsigned long long)nanos);
     }
     dg_res(millis);
     dg_res(want_n <= UINT64_MAX || ms == 0 ? nanos : 0);
